@@ -109,6 +109,17 @@ def register(R):
                  ensures=['self.tp == old(self.tp) + other.tp and self.tn == old(self.tn) + other.tn'
                           ' and self.fp == old(self.fp) + other.fp and self.fn == old(self.fn) + other.fn', 'result is self']))
 
+  # ---- further additive accumulators: merge adds every statistic, the operand is not written (frame) -----------------
+  def additive(cls, fields, real=()):
+    R.cls(cls, {f: 'rreal' for f in fields})
+    R.add(Contract(f'{RS}::{cls}.merge', PROPS, types=dict(self=cls, other=cls), ret=cls,
+                   modifies=[f'self.{f}' for f in fields],
+                   ensures=[f'self.{f} == old(self.{f}) + other.{f}' for f in fields] + ['result is self'],
+                   bounded='bounded_partition', note='homomorphism on the sufficient statistics'))
+  additive('_R2TjurBase', ['sum_y_true', 'sum_y_pred', 'sum_neg_y_true', 'sum_neg_y_pred'])
+  additive('RRegression', ['num_samples', 'sum_x', 'sum_y', 'sum_xx', 'sum_yy', 'sum_xy'])
+  additive('SymmetricPredictionDifference', ['num_samples', 'sum_half_pointwise_rel_diff'])
+
   R.bounded_checks['C01'] = [
       ('bounded_partition', 'every shipped metric: all shard/batch compositions (incl. empty shards) vs one batch'),
       ('bounded_row_locality', 'per-example values returned by add() do not depend on batch-mates (TopKRetrieval)'),
